@@ -5,13 +5,17 @@ import (
 	"github.com/dpb587/rdfkit-go/encoding/turtle/internal"
 )
 
-func format_PN_LOCAL(v string) string {
+// format_PN_LOCAL writes v as the local part of a prefixed name. It reports false if v has no such form which names
+// the same IRI; the IRI is then written as an IRIREF.
+func format_PN_LOCAL(v string) (string, bool) {
 	var usePercent, escapeEsc int
 
 	tr := []rune(v)
 
 	for idx := 0; idx < len(tr); idx++ {
 		switch prefixLocalNameMustEscapeRune(tr[idx], idx, len(tr)) {
+		case prefixLocalNameRuneInvalid:
+			return "", false
 		case prefixLocalNameRuneEscapePERCENT:
 			usePercent++
 		case prefixLocalNameRuneEscapeESC:
@@ -20,7 +24,7 @@ func format_PN_LOCAL(v string) string {
 	}
 
 	if usePercent == 0 && escapeEsc == 0 {
-		return v
+		return v, true
 	}
 
 	buf := make([]rune, len(tr)+usePercent*2+escapeEsc)
@@ -45,7 +49,7 @@ func format_PN_LOCAL(v string) string {
 		}
 	}
 
-	return string(buf)
+	return string(buf), true
 }
 
 type prefixLocalNameRuneEscapeMode uint
@@ -54,6 +58,7 @@ const (
 	prefixLocalNameRuneEscapeNone prefixLocalNameRuneEscapeMode = iota
 	prefixLocalNameRuneEscapePERCENT
 	prefixLocalNameRuneEscapeESC
+	prefixLocalNameRuneInvalid
 )
 
 func prefixLocalNameMustEscapeRune(r rune, pos int, length int) prefixLocalNameRuneEscapeMode {
@@ -65,15 +70,34 @@ func prefixLocalNameMustEscapeRune(r rune, pos int, length int) prefixLocalNameR
 		return prefixLocalNameRuneEscapeNone
 	}
 
-	if internal.IsRune_PN_CHARS(r) {
+	if r == ':' || internal.IsRune_PN_CHARS_U(r) || ('0' <= r && r <= '9') {
 		return prefixLocalNameRuneEscapeNone
-	} else if r == ':' {
+	} else if r == '-' {
+		if pos == 0 {
+			return prefixLocalNameRuneEscapeESC
+		}
+
+		return prefixLocalNameRuneEscapeNone
+	} else if internal.IsRune_PN_CHARS(r) {
+		// the remaining PN_CHARS cannot start a local name and have no escape
+		if pos == 0 {
+			return prefixLocalNameRuneInvalid
+		}
+
 		return prefixLocalNameRuneEscapeNone
 	}
 
 	switch r {
 	case '~', '!', '$', '&', '\'', '(', ')', '*', '+', ',', ';', '=', '/', '?', '#', '@', '%':
 		return prefixLocalNameRuneEscapeESC
+	case '[', ']':
+		// allowed in an IRI; a percent-encoding would name a different IRI
+		return prefixLocalNameRuneInvalid
+	}
+
+	if r > 0x7f {
+		// a single percent-encoded octet cannot stand for the character
+		return prefixLocalNameRuneInvalid
 	}
 
 	return prefixLocalNameRuneEscapePERCENT
